@@ -346,7 +346,15 @@ class CodedInputStream {
       throw EndOfStreamException();
     }
 
-    stream_.read(reinterpret_cast<char*>(buffer_.data()), buffer_.size());
+    try {
+      stream_.read(reinterpret_cast<char*>(buffer_.data()), buffer_.size());
+    } catch (std::ios_base::failure const&) {
+      // The owner of the stream enabled exceptions on it. Reading up to the end of the
+      // stream sets failbit, which is how the end is found and not an error here.
+      if (stream_.bad()) {
+        throw;
+      }
+    }
     at_eof_ = stream_.eof();
     auto bytes_read = stream_.gcount();
     buffer_ptr_ = buffer_.data();
